@@ -21,6 +21,7 @@ import PacketVerif.Props.C01ParseTie
 import PacketVerif.Props.C04TablesTie
 import PacketVerif.Props.Compose
 import PacketVerif.Props.C05
+import PacketVerif.Props.C04
 namespace PV.Props.ComposeGenTables
 open PV PV.Model PV.Lemmas.Compose PV.Spec
 
@@ -174,6 +175,66 @@ theorem packet_tables_tie (pc : Model.Cfg) (base : Tables.Cfg) {s : Tables.Sess}
     cases t.flag <;> decide
   rw [hpid, hd, hm, hfl]
   cases t.host <;> simp
+
+/-! ### histories of raw frames over regenerated bodies (C04, C05) -/
+
+/-- a step of a raw history: a received frame (bytes, arrival time) or any other API call -/
+inductive GenOp where
+  | frame (p : Bytes) (now : Int)
+  | api (op : Tables.Op)
+
+/-- one step: a frame goes through the regenerated Parse and the regenerated table functions (`none` = Go panic);
+    the other calls are the model's steps (their bodies are tied one by one in `C04TablesTie`) -/
+def genStep (fm : Tables.MAC → String) (pc : Model.Cfg) (tc : Tables.Cfg) (s : Tables.Sess) : GenOp → Option Tables.Sess
+  | .frame p now =>
+    match genParseTables fm pc s p now with
+    | .ok (_, some (s', _, _)) => some s'
+    | _ => none
+  | .api op => some (Tables.step tc s op).1
+
+def genRun (fm : Tables.MAC → String) (pc : Model.Cfg) (tc : Tables.Cfg) : Tables.Sess → List GenOp → Option Tables.Sess
+  | s, [] => some s
+  | s, op :: ops => (genStep fm pc tc s op).bind (fun s' => genRun fm pc tc s' ops)
+
+/-- the abstract operation a raw step is -/
+def opOfGen (fm : Tables.MAC → String) (pc : Model.Cfg) (base : Tables.Cfg) : GenOp → Tables.Op
+  | .frame p now => .frame (frameEvOf p) now (manufOf fm (Tables.hostEvent (cfgOf pc base) (frameEvOf p)))
+  | .api op => op
+
+/-- **a history of raw frames through the regenerated bodies is the abstract history of its frame events**: for every
+    history of any length from a state with the C05 invariant, no step panics, the invariant holds throughout, and
+    the final state is `Tables.run` on the frame events read off the bytes — the run `C04.run_refines` /
+    `Compose.run_refines_bytes` and `C05.inv_reachable` are about. -/
+theorem run_tables_tie (pc : Model.Cfg) (base : Tables.Cfg) (fm : Tables.MAC → String) (ops : List GenOp)
+    {s : Tables.Sess} (hi : Inv s) :
+    genRun fm pc (cfgOf pc base) s ops = some (Tables.run (cfgOf pc base) s (ops.map (opOfGen fm pc base))) ∧
+      Inv (Tables.run (cfgOf pc base) s (ops.map (opOfGen fm pc base))) := by
+  induction ops generalizing s with
+  | nil => exact ⟨rfl, hi⟩
+  | cons op rest ih =>
+    simp only [genRun, Tables.run, List.map_cons, List.foldl_cons] at ih ⊢
+    cases op with
+    | api o =>
+      have hi' := Props.C05.inv_step (cfgOf pc base) s o hi
+      simp only [genStep, opOfGen, Option.bind]
+      exact ih hi'
+    | frame p now =>
+      obtain ⟨r, s', host, flags, hg, hs', hi'⟩ := parse_tables_step pc base hi fm p now
+      simp only [genStep, hg, opOfGen, Option.bind]
+      rw [← hs']
+      exact ih hi'
+
+/-- **C04's main theorem over regenerated bodies**: from the state after `NewSession`, after any history of received
+    byte strings (each through the regenerated Parse and the regenerated table functions) and API calls, no step
+    panics and the tracked triples are those of the reference model `Spec.run` on the frame events read off the
+    bytes.  Side condition (C04's): our MAC is not the router's. -/
+theorem run_refines_gen (pc : Model.Cfg) (base : Tables.Cfg) (hc : pc.hostMAC ≠ pc.routerMAC)
+    (fm : Tables.MAC → String) (now : Int) (mh mr : String) (ops : List GenOp) :
+    ∃ s', genRun fm pc (cfgOf pc base) (Tables.init (cfgOf pc base) now mh mr) ops = some s' ∧
+      Lemmas.Tables.abs s' = Spec.run (cfgOf pc base) (Spec.init (cfgOf pc base) now) (ops.map (opOfGen fm pc base)) ∧
+      Inv s' := by
+  obtain ⟨h, hi⟩ := run_tables_tie pc base fm ops (Lemmas.Tables.inv_init (cfgOf pc base) now mh mr)
+  exact ⟨_, h, Props.C04.run_refines (cfgOf pc base) hc now mh mr _, hi⟩
 
 /- non-vacuity: an IPv4 frame from a new LAN station on the empty tables, through the regenerated bodies:
     host 1 under MAC entry 0 is created, it is online, the transition flag is set -/
